@@ -25,7 +25,7 @@ DIMS = {
     "fmt": ["glyf_colr_1", "cff_colr_1", "cff2_colr_1"],
     "outline": ["ell", "tri", "blob", "quad", "oval", "ring"],
     "stack": ["base", "one", "three", "three_rev", "four", "twice"],
-    "place": ["t", "id", "r90", "r180", "r30", "r45", "r1", "mx", "my", "md", "s2", "s05", "nu", "nu2", "nu_int", "sk", "out", "tiny", "tinycopy", "near", "off05", "far"],
+    "place": ["t", "id", "r90", "r180", "r30", "r45", "r1", "mx", "my", "md", "s2", "s05", "nu", "nu2", "nu_int", "x2", "sk", "out", "tiny", "tinycopy", "near", "off05", "far"],
     "donor_paint": ["red", "rgba", "rgba_op", "named", "omitted", "omitted_op", "opacity", "current", "current_op", "var", "var_op"],
     "copy_paint": ["blue", "same", "black", "alpha", "current", "var", "lin_bbox", "lin_user", "rad_bbox", "rad_focal_fr", "rad_user_gt"],
     "twin": ["none", "same_glyph", "cross_glyph"],
@@ -65,6 +65,8 @@ PL = {
     # a non-uniform scale about a point whose font-space image is integral under the default metrics ((426, 590): 12 units per
     # design unit, 37.5 units of centring), so that the compiler can say "scale around a centre"
     "nu_int": aff.around(aff.sc(-1, 0.5), 32.375, 30),  # factors that keep the 3-decimal source coordinates exact (centre (426, 590))
+    # exactly twice the size about a point with an integral font-space image: 2.0 is one step beyond what F2Dot14 holds
+    "x2": aff.around(aff.sc(2), 32.375, 30),
     "sk": aff.mul(aff.tr(0, 20), aff.skew(20, 0)),
     "out": aff.tr(500, 0),
     "near": aff.tr(30, 20),
